@@ -423,7 +423,14 @@ def report_violation(prop, tier, seed, cls, vs, say):
         ha, hb = (raw.get("out") or {}).get("log_hash"), (raw_b.get("out") or {}).get("log_hash")
         if ha != hb or cls not in classes_b:
             return dict(machinery="cold-start run %s did not behave identically in two fresh processes (%s vs %s)" % (v["run"], ha, hb))
+    m = re.search(r"\(task (\d+)", v.get("detail", "") or "")
+    if m and isinstance(case, dict):
+        case["_violating_task"] = int(m.group(1))
     small, execs = R.minimise(variant, case, cls)
+    if isinstance(small, dict):
+        small.pop("_violating_task", None)
+    if isinstance(case, dict):
+        case.pop("_violating_task", None)
     classes2, raw2 = R.evaluate_case(variant, small, want_log=True, timeout=300, twice=not v.get("crash"))
     if cls not in classes2:
         small, raw2 = case, raw
